@@ -435,6 +435,28 @@ fn expected_panics(t: &mut Tape, c: &mut Case) -> CaseResult {
             (MontyForm::new(&a, p1).retrieve(), MontyForm::new(&a, p2).retrieve(), MontyForm::one(p1).retrieve(), MontyForm::zero(p2).retrieve())
         })?;
     }
+    // mismatched boxed precisions where the documentation requires a relation between them
+    // (drawn last, so that earlier tapes keep their meaning)
+    let (ln, rn) = (t.usize_in(1, 5), t.usize_in(1, 5));
+    let (xa, xb) = (boxed(&gen::limbs(t, ln)), boxed(&gen::limbs(t, rn)));
+    c.num("lhs limbs", ln as u64);
+    c.num("rhs limbs", rn as u64);
+    if ln != rn {
+        // "`self` and `modulus` must have the same number of limbs, or the function will panic" (F-11d)
+        must_panic("BoxedUint::inv_mod (different limb counts) [documented panic]", || xa.inv_mod(&xb).is_some())?;
+    } else {
+        total("BoxedUint::inv_mod (equal limb counts, any modulus incl. 0 and even)", || xa.inv_mod(&xb).is_some())?;
+    }
+    if rn > ln {
+        // "Panics if `rhs` has a larger precision than `self`."
+        must_panic("BoxedUint::adc_assign (rhs wider) [documented panic]", || xa.clone().adc_assign(&xb, Limb::ZERO))?;
+        must_panic("BoxedUint::sbb_assign (rhs wider) [documented panic]", || xa.clone().sbb_assign(&xb, Limb::ZERO))?;
+    } else {
+        total("BoxedUint::adc_assign / sbb_assign (rhs not wider)", || (xa.clone().adc_assign(&xb, Limb::ZERO), xa.clone().sbb_assign(&xb, Limb::ZERO)))?;
+    }
+    if ln != rn {
+        c.nontrivial(true);
+    }
     Ok(())
 }
 
@@ -452,7 +474,7 @@ fn subchecks(ctx: &Ctx) -> Vec<SubCheck> {
     v.push(SubCheck::new("never-panic/decoders(bytes,der,rlp,serde)", 80_000, decode_total).tape(48));
     v.push(SubCheck::new("never-panic/radix-strings", 60_000, radix_total).tape(440));
     v.push(SubCheck::new("never-panic/random-bits", 60_000, random_total).tape(48));
-    v.push(SubCheck::new("expected-panic/table", 40_000, expected_panics).tape(48));
+    v.push(SubCheck::new("expected-panic/table", 40_000, expected_panics).tape(64));
     v.extend(extra::subchecks(ctx));
     inherit(&mut v, "C02", (c02::spec().subchecks)(ctx));
     inherit(&mut v, "C03", (c03::spec().subchecks)(ctx));
